@@ -136,3 +136,126 @@ Proof.
   - destruct (can_unread st); apply IH; cbn; auto.
   - specialize (IH st H). destruct (run k s st) as [[a os] st']. exact IH.
 Qed.
+
+(** * A failure of the reader is noticed exactly when its position is inspected (C10) *)
+Section Fault.
+  Variables (O A : Type) (k : nat) (rs : list rune).
+  Let s := mkSource rs (Some k).
+  Let clean := mkSource rs None.
+
+  Lemma cell_fault i : k <= i -> cell s i = RFault.
+  Proof. intros H. unfold cell, s. cbn [fail_from]. apply Nat.leb_le in H. rewrite H. reflexivity. Qed.
+
+  Lemma cell_clean i : i < k -> cell s i = cell clean i.
+  Proof.
+    intros H. unfold cell, s, clean. cbn [fail_from runes].
+    destruct (k <=? i) eqn:E; [apply Nat.leb_le in E; lia|reflexivity].
+  Qed.
+
+  (** a program that has inspected the failing position has been told of the failure *)
+  Theorem fault_noticed_when_inspected (p : prog O A) : forall st,
+    cursor st <= hiwater st -> (k < hiwater st -> faulted st = true) ->
+    k < hiwater (snd (run p s st)) -> faulted (snd (run p s st)) = true.
+  Proof.
+    induction p as [a|kk IH|kk IH|o kk IH]; intros st Hc Hf; cbn [run].
+    - exact Hf.
+    - destruct (cell s (cursor st)) eqn:E; apply IH; cbn [cursor hiwater faulted]; try lia.
+      + intros H. destruct (Nat.lt_ge_cases k (hiwater st)) as [H1|H1]; [exact (Hf H1)|].
+        assert (k <= cursor st) by lia. rewrite (cell_fault _ H0) in E. discriminate.
+      + intros H. destruct (Nat.lt_ge_cases k (hiwater st)) as [H1|H1]; [exact (Hf H1)|].
+        assert (k <= cursor st) by lia. rewrite (cell_fault _ H0) in E. discriminate.
+    - destruct (can_unread st); apply IH; cbn [cursor hiwater faulted]; try lia; exact Hf.
+    - specialize (IH st Hc Hf). destruct (run kk s st) as [[a os] st']. exact IH.
+  Qed.
+
+  (** and a program that was never told of it has run as on the whole input: same result, same
+      outputs, same final state *)
+  Theorem unnoticed_fault_changes_nothing (p : prog O A) st :
+    cursor st <= hiwater st -> hiwater st <= k -> faulted (snd (run p s st)) = false ->
+    run p clean st = run p s st.
+  Proof.
+    intros Hc Hh Hn. apply prefix_locality. intros i Hi.
+    assert (Hk : hiwater (snd (run p s st)) <= k).
+    { destruct (Nat.lt_ge_cases k (hiwater (snd (run p s st)))) as [H|H]; [|exact H].
+      rewrite (fault_noticed_when_inspected p st Hc ltac:(intros; lia) H) in Hn. discriminate. }
+    apply cell_clean. lia.
+  Qed.
+End Fault.
+
+(** * Successive calls on one reader (C07) *)
+Theorem run_bind {O A B} (m : prog O A) (f : A -> prog O B) s : forall st,
+  run (bind m f) s st =
+  let '(a, os, st1) := run m s st in let '(b, os2, st2) := run (f a) s st1 in (b, os ++ os2, st2).
+Proof.
+  induction m as [a|k IH|k IH|o k IH]; intros st; cbn [bind run].
+  - destruct (run (f a) s st) as [[b os2] st2]. reflexivity.
+  - destruct (cell s (cursor st)); apply IH.
+  - destruct (can_unread st); apply IH.
+  - rewrite IH. destruct (run k s st) as [[a os] st1]. destruct (run (f a) s st1) as [[b os2] st2]. reflexivity.
+Qed.
+
+Lemma nth_error_skipn {T} (l : list T) : forall c i, nth_error (skipn c l) i = nth_error l (i + c).
+Proof.
+  induction l as [|x l IH]; intros c i.
+  - rewrite skipn_nil. destruct i, c; reflexivity.
+  - destruct c as [|c]; [rewrite Nat.add_0_r; reflexivity|].
+    cbn [skipn]. rewrite IH. replace (i + S c) with (S (i + c)) by lia. reflexivity.
+Qed.
+
+Section Shift.
+  Variables (O A : Type) (rs : list rune) (c : nat).
+  Let s := mkSource rs None.
+  Let s2 := mkSource (skipn c rs) None.
+
+  (** a program started c characters into the text behaves as on the text that begins there *)
+  Theorem run_shift (p : prog O A) : forall st st2,
+    cursor st = cursor st2 + c -> can_unread st = can_unread st2 -> faulted st = faulted st2 ->
+    (can_unread st2 = true -> 0 < cursor st2) ->
+    let '(a, os, st') := run p s st in
+    let '(a2, os2, st2') := run p s2 st2 in
+    a = a2 /\ os = os2 /\ cursor st' = cursor st2' + c /\ can_unread st' = can_unread st2' /\ faulted st' = faulted st2'.
+  Proof.
+    induction p as [a|k IH|k IH|o k IH]; intros st st2 Hc Hu Hf Hp; cbn [run].
+    - repeat split; assumption.
+    - assert (Hcell : cell s (cursor st) = cell s2 (cursor st2)).
+      { unfold cell, s, s2. cbn [fail_from runes]. rewrite Hc, nth_error_skipn. reflexivity. }
+      rewrite Hcell. destruct (cell s2 (cursor st2)); apply IH; cbn [cursor can_unread faulted]; try assumption; try reflexivity; try lia; try discriminate.
+    - rewrite Hu. destruct (can_unread st2) eqn:E.
+      + specialize (Hp eq_refl). apply IH; cbn [cursor can_unread faulted]; try assumption; try reflexivity; try lia; try discriminate.
+      + apply IH; try assumption; [congruence|intros H0; rewrite E in H0; discriminate].
+    - specialize (IH st st2 Hc Hu Hf Hp). destruct (run k s st) as [[a os] st']. destruct (run k s2 st2) as [[a2 os2] st2'].
+      destruct IH as (Ha & Hos & Hrest). repeat split; try tauto. rewrite Hos. reflexivity.
+  Qed.
+End Shift.
+
+(** a call: a fresh lexer never unreads before it has read *)
+Definition fresh (st : rstate) : rstate := mkR (cursor st) false (hiwater st) (faulted st).
+
+(** the second of two successive calls on one reader gives what the same program gives on the
+    text that begins where the first call stopped: same result, same outputs, and it stops at
+    the corresponding place *)
+Theorem successive_calls {O A B} (p : prog O A) (q : prog O B) rs :
+  let s := mkSource rs None in
+  let '(a, os, st1) := run p s r0 in
+  let '(b, os2, st2) := run q s (fresh st1) in
+  let '(b', os2', st2') := run q (mkSource (skipn (cursor st1) rs) None) r0 in
+  b = b' /\ os2 = os2' /\ cursor st2 = cursor st2' + cursor st1.
+Proof.
+  cbv zeta. destruct (run p (mkSource rs None) r0) as [[a os] st1] eqn:E1.
+  assert (Hf : faulted st1 = false).
+  { destruct (faulted st1) eqn:Ef; [|reflexivity]. exfalso.
+    (* without a failing cell the interpreter never sets the flag *)
+    assert (H : forall (p0 : prog O A) st, faulted st = false -> faulted (snd (run p0 (mkSource rs None) st)) = false).
+    { induction p0 as [x|k IH|k IH|o k IH]; intros st H0; cbn [run].
+      - exact H0.
+      - destruct (cell (mkSource rs None) (cursor st)) eqn:Ec; try (apply IH; exact H0).
+        unfold cell in Ec. cbn [fail_from runes] in Ec. destruct (nth_error rs (cursor st)); discriminate.
+      - destruct (can_unread st); apply IH; exact H0.
+      - specialize (IH st H0). destruct (run k (mkSource rs None) st) as [[x os0] st0]. exact IH. }
+    specialize (H p r0 eq_refl). rewrite E1 in H. cbn [snd] in H. congruence. }
+  pose proof (run_shift O B rs (cursor st1) q (fresh st1) r0) as H.
+  cbn [fresh r0 cursor can_unread faulted] in H. specialize (H eq_refl eq_refl Hf ltac:(discriminate)).
+  destruct (run q (mkSource rs None) (fresh st1)) as [[b os2] st2].
+  destruct (run q (mkSource (skipn (cursor st1) rs) None) r0) as [[b' os2'] st2'].
+  destruct H as (H1 & H2 & H3 & _). repeat split; assumption.
+Qed.
